@@ -261,3 +261,26 @@ Proof.
   intros H Hh Hq E. unfold scan. apply scan_fuel_hints; [exact H|exact (dec_hint_prefix h p q Hh Hq E)|].
   pose proof (hint_bytes_length hs). rewrite app_length. lia.
 Qed.
+
+(* 6. The bytes determine the records: two lists of well-formed records with the same bytes are equal, and a file
+      whose last record is torn determines its complete records — a directory is read in one way only. *)
+Lemma layout_entries : forall es pos, map (fun x => snd x) (layout pos es) = es.
+Proof. induction es as [|e es IH]; intros pos; cbn [layout map snd]; [reflexivity|]. now rewrite IH. Qed.
+
+Theorem file_bytes_inj es es' : Forall wf_entry es -> Forall wf_entry es' -> file_bytes es = file_bytes es' -> es = es'.
+Proof.
+  intros H H' E. pose proof (scan_file es H) as S1. pose proof (scan_file es' H') as S2. rewrite E in S1. rewrite S1 in S2.
+  injection S2 as S2. rewrite <- (layout_entries es 0), <- (layout_entries es' 0). now rewrite S2.
+Qed.
+
+Theorem torn_file_determines_records es es' e e' p q p' q' :
+  Forall wf_entry es -> Forall wf_entry es' -> wf_entry e -> wf_entry e' -> q <> [] -> q' <> [] ->
+  enc_entry e = p ++ q -> enc_entry e' = p' ++ q' ->
+  file_bytes es ++ p = file_bytes es' ++ p' -> es = es' /\ p = p'.
+Proof.
+  intros H H' He He' Hq Hq' E E' Eb.
+  pose proof (scan_torn_file es e p q H He Hq E) as S1. pose proof (scan_torn_file es' e' p' q' H' He' Hq' E') as S2.
+  rewrite Eb in S1. rewrite S1 in S2. injection S2 as S2.
+  assert (Hes : es = es') by (rewrite <- (layout_entries es 0), <- (layout_entries es' 0); now rewrite S2).
+  split; [exact Hes|]. subst es'. now apply app_inv_head in Eb.
+Qed.
